@@ -1705,6 +1705,19 @@ func (h *nodeH) startRescan() {
 		QuitChan(quit))
 	errc := r.Start()
 	h.launch("Rescan", func() (any, error) { return nil, <-errc }, nil)
+	if os.Getenv("VFX_LENIENT") != "" {
+		// race-detector pass (C18): a second rescan with the same watch
+		// list walks the same blocks, which both get from the block cache
+		r2 := NewRescan(&RescanChainSource{ChainService: h.cs},
+			StartBlock(&headerfs.BlockStamp{Height: 0, Hash: *f.params.GenesisHash}),
+			WatchInputs(InputWithScript{OutPoint: wire.OutPoint{Index: 7}, PkScript: f.data[t2.Hash].Block.Transactions[1].TxOut[1].PkScript}),
+			NotificationHandlers(rpcclient.NotificationHandlers{
+				OnFilteredBlockConnected: func(int32, *wire.BlockHeader, []*btcutil.Tx) {},
+			}),
+			QuitChan(quit))
+		errc2 := r2.Start()
+		h.launch("Rescan-2", func() (any, error) { return nil, <-errc2 }, nil)
+	}
 }
 
 func (h *nodeH) launch(name string, f func() (any, error), check func(val any, err error) string) {
